@@ -1,5 +1,6 @@
 #!/usr/bin/env python3
-"""Generator for units/lpmod/unit.json (and the instance lists in props/C06|C07|C11.json).
+"""Generator for units/lpmod/unit.json (and the lpmod instance lists in props/C06|C07|C11.json; entries of other
+units in those files are preserved).
 
 The TABLE below has one entry per function under contract.  Re-run after changing it:
     python3 units/lpmod/gen.py
@@ -710,7 +711,9 @@ inst("aux_rangeToPerm", "SoPlexBase<R>::_rangeToPerm(int start, int end, int* pe
 def main():
     unit = {
         "property": ["C06", "C07", "C11"],
-        "desc": "family contracts F1/F2/F3 over the LP modifiers of SoPlexBase<R> (soplex.hpp): public real, public rational, internal _xxxReal twins, helpers",
+        "desc": "family contracts F1/F2/F3 over the LP modifiers of SoPlexBase<R> (soplex.hpp): public real, public rational, internal _xxxReal twins, helpers. "
+                "Instances whose defect was fixed in the repository (A-F: rat_clearLPRational, *_anyinfty, *_scaleflag, int_remove{Rows,Cols}Real_perm, int_changeElementReal, int_addColReal4) "
+                "carry a seeded fault defect_<X>_* that re-introduces it; the four int_change*Real_i_fixedclause instances FAIL on the current tree (OPEN known finding G, C06 only)",
         "rmode": "R = double (IEEE, bit-precise); Rational = ordered-group long long with Rational(double) = exact order embedding, R(Rational) uninterpreted",
         "harness": "h_lpmod", "enforce": "w_lpmod",
         "defines": {"CAP": "6"},
